@@ -335,8 +335,8 @@ func c03StaticDrift(w *core.World, id string) []core.Result {
 		return rs
 	}
 	// the two operands of the min
-	if len(w.Sites(fn, regexp.MustCompile(`^store &local<\[2\]int64>\[0\] = \$2\[.*\.ObjectMeta\.Name\]$`), false)) == 0 ||
-		len(w.Sites(fn, regexp.MustCompile(`^store &local<\[2\]int64>\[1\] = len\(next\(range\(lo\.GroupBy`), false)) == 0 {
+	if len(w.SitesOr(fn, regexp.MustCompile(`^store &local<\[2\]int64>\[0\] = \$2\[.*\.ObjectMeta\.Name\]$`), false, 1)) == 0 ||
+		len(w.SitesOr(fn, regexp.MustCompile(`^store &local<\[2\]int64>\[1\] = len\(next\(range\(lo\.GroupBy`), false, 1)) == 0 {
 		rs = append(rs, core.Bad(id, "PROV", "PROV:"+fnName+":min-operands", w.Pos(fn.Pos()), "the operands of the min are no longer (budget[pool], len(candidates of the pool))"))
 	}
 	// the candidate slice is cut at the grant
